@@ -367,7 +367,8 @@ def one_case(ctx, prog, vecs=None, label="gen"):
 def reloaded_gate(ctx, prog, H, model, prog_asserts, todo, label):
     import json as _json
     # literal assertions and assertions on components without free parameters have no dictionary form (DESIGN A.6)
-    if any("lit" in s["expr"] or H[s["h"]].prior_count == 0 for s in prog_asserts):
+    # ... nor have assertions attached to an arithmetic (compound / modified) prior object itself
+    if any("lit" in s["expr"] or H[s["h"]].prior_count == 0 or isinstance(H[s["h"]], (CompoundPrior, ModifiedPrior)) for s in prog_asserts):
         ctx.hit("reloaded:not-representable")
         return
     try:
